@@ -330,7 +330,8 @@ func genTarget(rng *RNG, opt genOpt) (v4, v6, raw *Config) {
 			rp = append(rp, "Netspoc-rawpol")
 		}
 		if opt.rawPolicy {
-			rp = append(rp, Pick(rng, []string{"my-policy", extPolicies[0]}))
+			// no prefix at all, or the prefix somewhere else than at the start / in another case
+			rp = append(rp, Pick(rng, []string{"my-policy", extPolicies[0], "Customer-Netspoc-dmz", "xNetspoc-v1", "netspoc-v1"}))
 		}
 		raw = genFile(rng, opt, "raw", rp)
 		if opt.rawPolicy {
@@ -350,13 +351,13 @@ func genTarget(rng *RNG, opt genOpt) (v4, v6, raw *Config) {
 				}
 				raw.Policies[0].Rules[0].Id = Pick(rng, []string{"r1", "r3-2-1", "r0x"})
 			case 1:
-				raw.Groups = append(raw.Groups, Group{Id: Pick(rng, []string{"mygroup", "netspoc-x", "Netspo"}), ExprId: "id",
+				raw.Groups = append(raw.Groups, Group{Id: Pick(rng, []string{"mygroup", "netspoc-x", "Netspo", "my-Netspoc-grp", "xNetspoc-web"}), ExprId: "id",
 					RType: "IPAddressExpression", Addrs: []string{"10.1.1.10"}})
 			case 2:
 				raw.Groups = append(raw.Groups, Group{Id: Pick(rng, []string{"Netspoc-g1", "Netspoc-g0-1"}), ExprId: "id",
 					RType: "IPAddressExpression", Addrs: []string{"10.1.1.10"}})
 			case 3:
-				raw.Services = append(raw.Services, Service{Pick(rng, []string{"Netspoc-tcp_81", "Netspoc-ra", "raw"}), l4("TCP", "81")})
+				raw.Services = append(raw.Services, Service{Pick(rng, []string{"Netspoc-tcp_81", "Netspoc-ra", "raw", "x-Netspoc-raw-y", "aNetspoc-raw"}), l4("TCP", "81")})
 			}
 		}
 	}
@@ -528,6 +529,19 @@ func deriveStore(rng *RNG, T *Config, opt genOpt) *Config {
 			}
 		default: // expression id chosen by somebody else
 			g.ExprId = Pick(rng, []string{"e1", "expr"})
+		}
+	}
+	// a device group may carry an expression id other than Netspoc's constant "id" (created or repaired by hand),
+	// whatever else happened to it
+	for gi := range D.Groups {
+		if strings.HasPrefix(D.Groups[gi].Id, "Netspoc") && rng.Chance(20) {
+			D.Groups[gi].ExprId = Pick(rng, []string{"e1", "expr", "0815"})
+			if rng.Chance(40) { // … and many more addresses than the target: PATCH of the whole expression
+				for _, a := range pickAddrs(rng, addrsV4, 6) {
+					D.Groups[gi].Addrs = append(D.Groups[gi].Addrs, a)
+				}
+				D.Groups[gi].Addrs = dedup(D.Groups[gi].Addrs)
+			}
 		}
 	}
 	// rules
@@ -713,6 +727,21 @@ func deriveStore(rng *RNG, T *Config, opt genOpt) *Config {
 				p.Rules = append(p.Rules, r)
 			}
 			D.Policies = append(D.Policies, p)
+		}
+	}
+	// a policy outside Netspoc's scope that carries the id a raw file uses for a policy without the prefix
+	for _, tp := range T.Policies {
+		if !strings.HasPrefix(tp.Id, "Netspoc") && rng.Chance(70) {
+			exists := false
+			for _, p := range D.Policies {
+				if p.Id == tp.Id {
+					exists = true
+				}
+			}
+			if !exists {
+				D.Policies = append(D.Policies, Policy{Id: tp.Id, Rules: []Rule{{Id: "own1", Direction: "IN_OUT", Action: "ALLOW", Seq: 1,
+					Scope: []string{scopes[0]}, Service: "ANY", Src: gpath(extGroups[0]), Dst: "10.2.1.10"}}})
+			}
 		}
 	}
 	// repair: one object per id, every reference of a device rule exists
